@@ -3,6 +3,15 @@
  * ht-spkitable.c is #included (and excluded from the separately compiled sources) so that the
  * private `struct key_entry` and the inline tommy accessors are the repo's own declarations:
  * no mirrored layout.  Protocol: see lean/Driver/Spki.lean.
+ *
+ * Besides the table API the harness reaches the two halves of the mechanism "hash on AS, full compare on
+ * (AS, SKI, key, source)" separately:
+ *   cmp <rec> <rec>          the static key_entry_cmp() itself on two entries (0 = equal, 1 = different)
+ *   fnew | fadd H <rec> | fget H <rec> | frm H <rec> | fhl | fbuckets
+ *                            a tommy_hashlin of its own, driven through the real tommy_hashlin_search / _insert /
+ *                            _remove with key_entry_cmp as comparison function and a hash value H CHOSEN by the
+ *                            history (8 hex digits) - what a full 32-bit hash collision between different records
+ *                            looks like to the table, without having to find one.
  */
 #define _GNU_SOURCE
 #include "rtrlib/spki/hashtable/ht-spkitable.c"
@@ -145,6 +154,79 @@ static bool parse_rec(char **w, int n, struct spki_record *r)
 	return true;
 }
 
+/* ---------------------------------------------------------------- forced-hash table */
+static tommy_hashlin fh;
+static bool fh_live;
+
+static void fh_free_entry(void *e)
+{
+	free(e);
+}
+
+static void fh_reset(void)
+{
+	if (fh_live) {
+		tommy_hashlin_foreach(&fh, fh_free_entry);
+		tommy_hashlin_done(&fh);
+	}
+	tommy_hashlin_init(&fh);
+	fh_live = true;
+}
+
+static bool parse_hash(const char *s, tommy_hash_t *out)
+{
+	uint8_t b[4];
+
+	if (strlen(s) != 8 || !parse_hex(s, b, 4))
+		return false;
+	*out = ((tommy_hash_t)b[0] << 24) | ((tommy_hash_t)b[1] << 16) | ((tommy_hash_t)b[2] << 8) | b[3];
+	return true;
+}
+
+static void print_entry(const struct key_entry *e)
+{
+	char b[RECBUF];
+
+	fmt_fields(b, e->asn, e->ski, e->spki, e->socket);
+	printf("%s", b);
+}
+
+static void print_hl(tommy_hashlin *h)
+{
+	printf("hl count=%u bit=%u max=%u mask=%u lowmax=%u lowmask=%u split=%u state=%u\n", h->count, h->bucket_bit,
+	       h->bucket_max, h->bucket_mask, h->low_max, h->low_mask, h->split, h->state);
+}
+
+/* keyok: whether the stored key must be the table's hash of the entry (not for the forced-hash table) */
+static void print_buckets(tommy_hashlin *h, bool keyok)
+{
+	tommy_count_t valid = h->low_max + h->split;
+
+	printf("buckets");
+	for (tommy_count_t pos = 0; pos < valid; pos++) {
+		tommy_hashlin_node *node = *tommy_hashlin_pos(h, pos);
+		bool first = true;
+
+		if (!node)
+			continue;
+		printf(" %u:[", pos);
+		while (node) {
+			struct key_entry *e = node->data;
+			char b[RECBUF];
+
+			fmt_fields(b, e->asn, e->ski, e->spki, e->socket);
+			/* the stored key must be the hash of the entry's AS number */
+			if (keyok && (node->key != tommy_inthash_u32(e->asn) || node != &e->hash_node))
+				printf("BADKEY ");
+			printf("%s%s", first ? "" : ",", b);
+			first = false;
+			node = node->next;
+		}
+		printf("]");
+	}
+	printf("\n");
+}
+
 static int tabidx(const char *s)
 {
 	unsigned long t;
@@ -278,37 +360,79 @@ int main(void)
 			table_init(t, cb);
 			puts("ok");
 		} else if (!strcmp(w[0], "hl") && n == 2 && t >= 0) {
-			tommy_hashlin *h = &tabs[t].hashtable;
-
-			printf("hl count=%u bit=%u max=%u mask=%u lowmax=%u lowmask=%u split=%u state=%u\n", h->count,
-			       h->bucket_bit, h->bucket_max, h->bucket_mask, h->low_max, h->low_mask, h->split, h->state);
+			print_hl(&tabs[t].hashtable);
 		} else if (!strcmp(w[0], "buckets") && n == 2 && t >= 0) {
-			tommy_hashlin *h = &tabs[t].hashtable;
-			tommy_count_t valid = h->low_max + h->split;
+			print_buckets(&tabs[t].hashtable, true);
+		} else if (!strcmp(w[0], "cmp") && n == 9) {
+			struct spki_record ra, rb;
+			struct key_entry ea, eb;
 
-			printf("buckets");
-			for (tommy_count_t pos = 0; pos < valid; pos++) {
-				tommy_hashlin_node *node = *tommy_hashlin_pos(h, pos);
-				bool first = true;
-
-				if (!node)
-					continue;
-				printf(" %u:[", pos);
-				while (node) {
-					struct key_entry *e = node->data;
-					char b[RECBUF];
-
-					fmt_fields(b, e->asn, e->ski, e->spki, e->socket);
-					/* the stored key must be the hash of the entry's AS number */
-					if (node->key != tommy_inthash_u32(e->asn) || node != &e->hash_node)
-						printf("BADKEY ");
-					printf("%s%s", first ? "" : ",", b);
-					first = false;
-					node = node->next;
-				}
-				printf("]");
+			if (!parse_rec(w + 1, 4, &ra) || !parse_rec(w + 5, 4, &rb)) {
+				puts("bad-op");
+				continue;
 			}
-			printf("\n");
+			memset(&ea, 0, sizeof(ea));
+			memset(&eb, 0, sizeof(eb));
+			spki_record_to_key_entry(&ra, &ea);
+			spki_record_to_key_entry(&rb, &eb);
+			printf("%d\n", key_entry_cmp(&ea, &eb) != 0);
+		} else if (!strcmp(w[0], "fnew") && n == 1) {
+			fh_reset();
+			puts("ok");
+		} else if ((!strcmp(w[0], "fadd") || !strcmp(w[0], "fget") || !strcmp(w[0], "frm")) && n == 6) {
+			struct spki_record r;
+			struct key_entry probe;
+			tommy_hash_t hash;
+
+			if (!parse_hash(w[1], &hash) || !parse_rec(w + 2, 4, &r)) {
+				puts("bad-op");
+				continue;
+			}
+			if (!fh_live)
+				fh_reset();
+			memset(&probe, 0, sizeof(probe));
+			spki_record_to_key_entry(&r, &probe);
+			if (!strcmp(w[0], "fadd")) {
+				/* the sequence of spki_table_add_entry with the hash replaced */
+				if (tommy_hashlin_search(&fh, key_entry_cmp, &probe, hash)) {
+					printf("%d\n", SPKI_DUPLICATE_RECORD);
+				} else {
+					struct key_entry *e = malloc(sizeof(*e));
+
+					memcpy(e, &probe, sizeof(*e));
+					tommy_hashlin_insert(&fh, &e->hash_node, e, hash);
+					printf("%d\n", SPKI_SUCCESS);
+				}
+			} else if (!strcmp(w[0], "fget")) {
+				struct key_entry *e = tommy_hashlin_search(&fh, key_entry_cmp, &probe, hash);
+
+				if (e) {
+					printf("1 ");
+					print_entry(e);
+					printf("\n");
+				} else {
+					puts("0");
+				}
+			} else {
+				struct key_entry *e = tommy_hashlin_remove(&fh, key_entry_cmp, &probe, hash);
+
+				if (e) {
+					printf("1 ");
+					print_entry(e);
+					printf("\n");
+					free(e);
+				} else {
+					puts("0");
+				}
+			}
+		} else if (!strcmp(w[0], "fhl") && n == 1) {
+			if (!fh_live)
+				fh_reset();
+			print_hl(&fh);
+		} else if (!strcmp(w[0], "fbuckets") && n == 1) {
+			if (!fh_live)
+				fh_reset();
+			print_buckets(&fh, false);
 		} else if (!strcmp(w[0], "list") && n == 2 && t >= 0) {
 			printf("list");
 			for (tommy_node *node = tommy_list_head(&tabs[t].list); node; node = node->next) {
@@ -335,6 +459,10 @@ int main(void)
 		} else {
 			puts("bad-op");
 		}
+	}
+	if (fh_live) {
+		tommy_hashlin_foreach(&fh, fh_free_entry);
+		tommy_hashlin_done(&fh);
 	}
 	fflush(stdout);
 	free(line);
